@@ -68,5 +68,6 @@ contract(
         and same(cnds.ConditionLike.from_spec(result), self)
         and same(cnds.ConditionLike.from_spec(result).to_json_like(), result),
     raises={},
+    inline_at_calls=True,        # callers (part / rule serialisation) run the serialiser's body on their own condition
     serves=["C11", "C13"],
 )
